@@ -1842,6 +1842,14 @@ def r_uaf(P, chk):
                 if y["k"] == "BinaryOperator" and y["op"] == "=" and key(y["c"][0]) == nm and y["i"] in pos:
                     b, i = pos[y["i"]]
                     redef.setdefault(b, []).append(i)
+                elif y["k"] == "VarDecl" and y.get("n") == nm and y.get("c") and y["c"][0] is not None:
+                    # a declaration with initialiser inside a loop body defines the local afresh in every pass
+                    z = f.parent(y)
+                    while z is not None and z.get("i") not in pos:
+                        z = f.parent(z)
+                    if z is not None:
+                        b, i = pos[z["i"]]
+                        redef.setdefault(b, []).append(i)
             # dereferences of nm
             bad = None
             derefs = []
@@ -2116,6 +2124,8 @@ def r_stalelen(P, chk):
                 if not any(a in (obj, root, "&" + root) for a in args):
                     continue
                 m = P.mods(f, cal)
+                if cal == "d_string_free":
+                    continue          # the object is gone afterwards; a length read before is the only valid record of it
                 if cal.startswith("d_string_") and cal not in ("d_string_copy_substring",) or m is None or "currentStringLength" in m:
                     muts.append(c)
             # uses of nm as a length of the same buffer
